@@ -345,6 +345,8 @@ class PlainQuantity(Generic[MagnitudeT], PrettyIPython, SharedRegistryObject):
         return not bool(tmp.dimensionality)
 
     _dimensionality: UnitsContainerT | None = None
+    #: The (immutable) units container `_dimensionality` was computed for.
+    _dimensionality_units: UnitsContainerT | None = None
 
     @property
     def dimensionality(self) -> UnitsContainerT:
@@ -354,7 +356,13 @@ class PlainQuantity(Generic[MagnitudeT], PrettyIPython, SharedRegistryObject):
         dict
             Dimensionality of the PlainQuantity, e.g. ``{length: 1, time: -1}``
         """
-        if self._dimensionality is None:
+        # In-place operations (ito with a context, *=, /=, //=, **=) replace
+        # self._units, so the memo is only valid for the units it was built from.
+        if (
+            self._dimensionality is None
+            or self._dimensionality_units is not self._units
+        ):
+            self._dimensionality_units = self._units
             self._dimensionality = self._REGISTRY._get_dimensionality(self._units)
 
         return self._dimensionality
